@@ -47,9 +47,12 @@ type BN struct {
 	SPE                   uint64
 	Forks                 []Fork // ascending epochs, first at epoch 0
 
-	mu    sync.Mutex
-	Calls []string
-	vals  map[eth2p0.ValidatorIndex]eth2p0.BLSPubKey
+	mu      sync.Mutex
+	Calls   []string
+	vals    map[eth2p0.ValidatorIndex]eth2p0.BLSPubKey
+	duties  *DutyTables
+	fail    map[string]int
+	latency time.Duration
 }
 
 // New returns a fake node whose fork epochs are spread over the whole epoch range, so that
@@ -174,4 +177,140 @@ func (b *BN) ActiveValidators(context.Context) (eth2wrap.ActiveValidators, error
 		out[k] = v
 	}
 	return out, nil
+}
+
+// ---- scripted duty tables (C15, C20)
+
+// DutyTables are the beacon node's duty assignments.
+type DutyTables struct {
+	Att  map[eth2p0.Epoch]map[eth2p0.ValidatorIndex]eth2v1.AttesterDuty
+	Pro  map[eth2p0.Epoch][]eth2v1.ProposerDuty
+	Sync map[eth2p0.Epoch]map[eth2p0.ValidatorIndex]eth2v1.SyncCommitteeDuty
+}
+
+func NewDutyTables() *DutyTables {
+	return &DutyTables{Att: map[eth2p0.Epoch]map[eth2p0.ValidatorIndex]eth2v1.AttesterDuty{}, Pro: map[eth2p0.Epoch][]eth2v1.ProposerDuty{}, Sync: map[eth2p0.Epoch]map[eth2p0.ValidatorIndex]eth2v1.SyncCommitteeDuty{}}
+}
+
+// SetDuties installs the tables; Fail schedules n failures for the named endpoint
+// ("attester", "proposer", "sync", "validators"); Latency delays every duty call (virtual time).
+func (b *BN) SetDuties(t *DutyTables) { b.mu.Lock(); b.duties = t; b.mu.Unlock() }
+func (b *BN) Fail(endpoint string, n int) {
+	b.mu.Lock()
+	if b.fail == nil {
+		b.fail = map[string]int{}
+	}
+	b.fail[endpoint] = n
+	b.mu.Unlock()
+}
+func (b *BN) SetLatency(d time.Duration) { b.mu.Lock(); b.latency = d; b.mu.Unlock() }
+
+// CallCount returns how often an endpoint was called.
+func (b *BN) CallCount(endpoint string) int {
+	b.mu.Lock()
+	defer b.mu.Unlock()
+	n := 0
+	for _, c := range b.Calls {
+		if c == endpoint {
+			n++
+		}
+	}
+	return n
+}
+
+func (b *BN) enter(endpoint string) error {
+	b.mu.Lock()
+	b.Calls = append(b.Calls, endpoint)
+	lat := b.latency
+	failing := b.fail[endpoint] > 0
+	if failing {
+		b.fail[endpoint]--
+	}
+	b.mu.Unlock()
+	if lat > 0 {
+		time.Sleep(lat)
+	}
+	if failing {
+		return errScripted
+	}
+	return nil
+}
+
+var errScripted = scriptedErr("fakebn: scripted failure")
+
+type scriptedErr string
+
+func (e scriptedErr) Error() string { return string(e) }
+
+func want(indices []eth2p0.ValidatorIndex) func(eth2p0.ValidatorIndex) bool {
+	if len(indices) == 0 {
+		return func(eth2p0.ValidatorIndex) bool { return true }
+	}
+	set := map[eth2p0.ValidatorIndex]bool{}
+	for _, i := range indices {
+		set[i] = true
+	}
+	return func(i eth2p0.ValidatorIndex) bool { return set[i] }
+}
+
+func (b *BN) AttesterDuties(_ context.Context, opts *eth2api.AttesterDutiesOpts) (*eth2api.Response[[]*eth2v1.AttesterDuty], error) {
+	if err := b.enter("attester"); err != nil {
+		return nil, err
+	}
+	b.mu.Lock()
+	defer b.mu.Unlock()
+	var out []*eth2v1.AttesterDuty
+	w := want(opts.Indices)
+	var keys []eth2p0.ValidatorIndex
+	for k := range b.duties.Att[opts.Epoch] {
+		keys = append(keys, k)
+	}
+	sort.Slice(keys, func(i, j int) bool { return keys[i] < keys[j] })
+	for _, k := range keys {
+		if w(k) {
+			d := b.duties.Att[opts.Epoch][k]
+			out = append(out, &d)
+		}
+	}
+	return &eth2api.Response[[]*eth2v1.AttesterDuty]{Data: out, Metadata: map[string]any{"epoch": uint64(opts.Epoch)}}, nil
+}
+
+func (b *BN) ProposerDuties(_ context.Context, opts *eth2api.ProposerDutiesOpts) (*eth2api.Response[[]*eth2v1.ProposerDuty], error) {
+	if err := b.enter("proposer"); err != nil {
+		return nil, err
+	}
+	b.mu.Lock()
+	defer b.mu.Unlock()
+	var out []*eth2v1.ProposerDuty
+	w := want(opts.Indices)
+	for _, d := range b.duties.Pro[opts.Epoch] {
+		if w(d.ValidatorIndex) {
+			c := d
+			out = append(out, &c)
+		}
+	}
+	return &eth2api.Response[[]*eth2v1.ProposerDuty]{Data: out, Metadata: map[string]any{"epoch": uint64(opts.Epoch)}}, nil
+}
+
+func (b *BN) SyncCommitteeDuties(_ context.Context, opts *eth2api.SyncCommitteeDutiesOpts) (*eth2api.Response[[]*eth2v1.SyncCommitteeDuty], error) {
+	if err := b.enter("sync"); err != nil {
+		return nil, err
+	}
+	b.mu.Lock()
+	defer b.mu.Unlock()
+	var out []*eth2v1.SyncCommitteeDuty
+	w := want(opts.Indices)
+	var keys []eth2p0.ValidatorIndex
+	for k := range b.duties.Sync[opts.Epoch] {
+		keys = append(keys, k)
+	}
+	sort.Slice(keys, func(i, j int) bool { return keys[i] < keys[j] })
+	for _, k := range keys {
+		if w(k) {
+			d := b.duties.Sync[opts.Epoch][k]
+			d.ValidatorSyncCommitteeIndices = append([]eth2p0.CommitteeIndex{}, d.ValidatorSyncCommitteeIndices...)
+			out = append(out, &d)
+		}
+	}
+	return &eth2api.Response[[]*eth2v1.SyncCommitteeDuty]{Data: out, Metadata: map[string]any{"epoch": uint64(opts.Epoch)}}, nil
 }
